@@ -144,9 +144,15 @@ def check_shapes(chk, it):
                    '%d active data segment(s) but %d LOAD_DATA statement(s) are reachable from modInstantiate (memory is %s): the '
                    'segment bytes never reach linear memory' % (n_active, len(reach), sh['mem']), 'wasmCWriteInitMemories:reachability:' + sh['mem'])
         want_mem = '(*i->m0)' if sh['mem'] == 'defined' else '(*i->env__memory)'
-        for l in reach:
-            chk.expect(l.replace(' ', '').startswith(want_mem), 'R06.3', 'data-segment-target[%s]' % label,
-                       'segment is loaded into %r, expected memory %s' % (l[:30], want_mem), 'wasmCWriteInitMemories:target')
+        want_loads = []
+        for k, d in enumerate(sh['data']):
+            if d.startswith('active'):
+                want_loads.append('%s,%dU,d%d,3' % (want_mem, 100 + k, k))
+        got_loads = [l.replace(' ', '') for l in reach]
+        chk.expect(got_loads == want_loads, 'R06.3', 'data-segment-arguments[%s]' % label,
+                   'active segments are loaded with LOAD_DATA(%s); expected, in segment order, (memory, evaluated offset, segment array, full '
+                   'byte length) = %r - a shorter length leaves bytes of an earlier overlapping segment or of an imported memory in place'
+                   % (' | '.join(got_loads), want_loads), 'wasmCWriteInitMemories:load-arguments')
         # element stores
         if sh['elems']:
             stores = re.findall(r'([^;\n]*)\.data\[offset\s*\+\s*(\d+)\]\s*=\s*\(wasmFunc\)\s*&?\s*([\w]+)\s*;', fns.get('modInitTables', ''))
@@ -159,6 +165,18 @@ def check_shapes(chk, it):
                        % (sh['table'], got, 'offset' in fns.get('modInitTables', ''), want), 'wasmCWriteInitTables:elements')
     chk.extra['module_shapes'] = n
     return n
+
+
+def check_data_arrays(chk, it):
+    """the segment arrays contain every byte (including trailing zeros) of every segment, passive ones too"""
+    mk = shape(it, mem='defined', table='none', nglobals=0, gimports=0, data=('active', 'passive', 'active'), elems=0, start=False)
+    for pretty in (0, 1):
+        text = emit_text(it, 'wasmCWriteDataSegments', lambda out: [out, Ptr({'v': mk()}, 'v'), 0, pretty])
+        arrays = re.findall(r'const U8 d(\d+)\[\]\s*=\s*\{([^}]*)\}', text)
+        got = [(int(k), [int(x, 0) for x in body.replace('\n', ' ').split(',') if x.strip()]) for k, body in arrays]
+        want = [(0, [7, 9, 0]), (1, [7, 9, 0]), (2, [7, 9, 0])]
+        chk.expect(got == want, 'R06.3', 'data-arrays[pretty=%d]' % pretty,
+                   'data segment arrays are emitted as %r; expected every byte of every segment: %r' % (got, want), 'wasmCWriteDataSegments')
 
 
 def check_members_and_imports(chk, it):
@@ -248,6 +266,7 @@ def run(chk):
     it = make(tus)
     n = check_shapes(chk, it)
     chk.explanation = chk.explanation.replace('on 0 concrete', 'on %d concrete' % n)
+    check_data_arrays(chk, it)
     check_members_and_imports(chk, it)
     check_export_params(chk, it)
     chk.floor('R06.1', 100)
